@@ -271,4 +271,364 @@ theorem sv_step (o : VOpts) (fuel : Nat) (hA : SA o fuel) (hO : SO o fuel) : SV 
     rw [hlex] at hrt
     exact rej_of_err o st _ cnt base _ _ hrt (by simp)
 
+/-! ### arrays -/
+
+/-- what precedes the blanks in front of the next element: blanks only, or blanks and the comma -/
+def LeadOK (dl : UInt8) (lead : Bytes) : Prop :=
+  (dl = 0 ∧ JWs lead) ∨ ((dl == 0x3A || dl == 0x2C) = true ∧ ∃ w, JWs w ∧ lead = w ++ [dl])
+
+theorem pre_of_lead (dl : UInt8) (lead w1 : Bytes) (h : LeadOK dl lead) (hw : JWs w1) : PreOK dl (lead ++ w1) := by
+  rcases h with ⟨h0, hl⟩ | ⟨hd, w, hw0, rfl⟩
+  · exact Or.inl ⟨h0, jws_append _ _ hl hw⟩
+  · exact Or.inr ⟨hd, w, w1, hw0, hw, by simp⟩
+
+theorem split_at_drop (r : Bytes) (w : Nat) (c : UInt8) (t : Bytes) (h : r.drop w = c :: t) : r = r.take w ++ c :: t := by
+  rw [← h]; exact (List.take_append_drop _ _).symm
+
+theorem rej_lead_end (o : VOpts) {b : Nat} {st : TState} {fs : Frames} (h : TGood b st fs) (hd : 2 ≤ fs.length)
+    (lead r : Bytes) (hl : LeadOK (ncDelim fs) lead) (hr : JWs r) (cnt base : Nat) :
+    ∀ F, Rej (tokenLoop o F st (lead ++ r) cnt base) := by
+  rcases hl with ⟨-, hw⟩ | ⟨hdl, w, hw, rfl⟩
+  · exact rej_end o h hd _ (jws_append _ _ hw hr) cnt base
+  · have : w ++ [ncDelim fs] ++ r = w ++ ncDelim fs :: r := by simp
+    rw [this]
+    obtain ⟨off, e, he, hne⟩ := readToken_delim_end o st w r (ncDelim fs) hdl hw hr
+    exact rej_of_err o st _ cnt base off e he hne
+
+structure AtElem (b D : Nat) (st : TState) (k : Nat) (g : Frame) (grest : Frames) (lead r : Bytes) : Prop where
+  good : TGood b st (.arr k :: g :: grest)
+  depth : grest.length + 2 = D
+  lead : LeadOK (ncDelim (.arr k :: g :: grest)) lead
+  guard : k = 0 → ∀ c t, r.drop (consumeWhitespace r) = c :: t → c ≠ 0x5D
+  room : b + r.length + 1 < 2^61
+
+/-- the rest of a container is read, through its closing bracket -/
+def OkLoop (o : VOpts) (b D : Nat) (st : TState) (g : Frame) (grest : Frames) (lead r : Bytes) (n cnt base : Nat) : Prop :=
+  ∃ T st', 1 ≤ T ∧ T ≤ n ∧ n ≤ r.length ∧ TGood (b + T) st' (g :: grest) ∧ (st'.nss = st.nss) ∧
+    Steps o T st (lead ++ r) cnt base st' (r.drop n) (if D = 2 then cnt + 1 else cnt) (base + lead.length + n)
+
+def ConclL (o : VOpts) (b D : Nat) (st : TState) (g : Frame) (grest : Frames) (lead r : Bytes) (cnt base : Nat)
+    (res : Nat × Err) : Prop :=
+  (res.2 = .ok → OkLoop o b D st g grest lead r res.1 cnt base) ∧
+  (res.2 ≠ .ok → ∀ F, Rej (tokenLoop o F st (lead ++ r) cnt base))
+
+def SL (o : VOpts) (fuel : Nat) : Prop :=
+  ∀ D r b st k g grest lead cnt base, AtElem b D st k g grest lead r → 3 * r.length + 2 ≤ fuel →
+    ConclL o b D st g grest lead r cnt base (arrayLoop o fuel D r)
+
+theorem step_endArr (k : Nat) (g : Frame) (grest : Frames) :
+    PDA.step maxNestingDepth (.arr k :: g :: grest) .endArr = some (g :: grest) := by simp [PDA.step]
+
+theorem sl_step (o : VOpts) (fuel : Nat) (hV : SV o fuel) (hL : SL o fuel) : SL o (fuel + 1) := by
+  intro D r b st k g grest lead cnt base ha hfuel
+  have hlen2 : 2 ≤ (Frame.arr k :: g :: grest).length := by simp
+  simp only [arrayLoop]
+  cases hd : r.drop (consumeWhitespace r) with
+  | nil =>
+    simp only
+    refine ⟨fun he => by simp at he, fun _ => ?_⟩
+    exact rej_lead_end o ha.good hlen2 lead r ha.lead (jws_of_drop_nil r hd) cnt base
+  | cons c1 rd0 =>
+    simp only
+    have hsplit := split_at_drop r _ c1 rd0 hd
+    have hl1 := len_of_drop r _ c1 rd0 hd
+    have hc1w : isWs c1 = false := by
+      have := ws_stop r c1 rd0 hd; rw [← isWs_iff] at this; simpa using this
+    have hav : AtValue b D st (.arr k) (g :: grest) (lead ++ r.take (consumeWhitespace r)) c1 rd0 :=
+      { good := ha.good
+        depth := by have := ha.depth; simp; omega
+        vpos := rfl
+        pre := pre_of_lead _ _ _ ha.lead (ws_take r)
+        cws := hc1w
+        guard := by intro hf _; simp only [Frame.arr.injEq] at hf; exact ha.guard hf c1 rd0 hd
+        room := by have := ha.room; simp; omega }
+    have hin : lead ++ r = (lead ++ r.take (consumeWhitespace r)) ++ c1 :: rd0 := by
+      rw [List.append_assoc, ← hsplit]
+    have hsv := hV D c1 rd0 b st (.arr k) (g :: grest) (lead ++ r.take (consumeWhitespace r)) cnt base hav
+      (by simp at hfuel ⊢; omega)
+    rcases hcv : consumeValue o fuel D (c1 :: rd0) with ⟨kk, e⟩
+    rw [hcv] at hsv
+    simp only
+    by_cases he : e ≠ .ok
+    · have : (e != .ok) = true := by simpa using he
+      simp only [this, if_true]
+      refine ⟨fun h' => absurd h' he, fun _ => ?_⟩
+      rw [hin]; exact hsv.2 he
+    have he' : e = .ok := by simpa using he
+    subst he'
+    simp only [bne_self_eq_false, Bool.false_eq_true, if_false]
+    obtain ⟨T1, st1, hT1, hT1k, hkl, hg1, hns1, hst1⟩ := hsv.1 rfl
+    simp only [Frame.bump] at hg1
+    have hD2 : ¬ (D = 1) := by have := ha.depth; omega
+    simp only [hD2, if_false] at hst1
+    rw [← hin] at hst1
+    have hb1 : b + T1 + 1 < 2^61 := by have := ha.room; simp at hkl; omega
+    cases hd2 : ((c1 :: rd0).drop kk).drop (consumeWhitespace ((c1 :: rd0).drop kk)) with
+    | nil =>
+      simp only
+      refine ⟨fun he => by simp at he, fun _ => ?_⟩
+      exact rej_of_steps o hst1 (rej_end o hg1 (by simp) _ (jws_of_drop_nil _ hd2) cnt _)
+    | cons c2 rf =>
+      simp only
+      have hsplit2 := split_at_drop _ _ c2 rf hd2
+      have hl2 := len_of_drop _ _ c2 rf hd2
+      simp only [List.length_drop, List.length_cons] at hl2
+      have hc2w : isWs c2 = false := by
+        have := ws_stop _ c2 rf hd2; rw [← isWs_iff] at this; simpa using this
+      generalize hre : (c1 :: rd0).drop kk = re at *
+      generalize hw4 : consumeWhitespace re = w4 at *
+      by_cases hcomma : (c2 == 0x2C) = true
+      · -- next element
+        have hc2 : c2 = 0x2C := by simpa using hcomma
+        subst hc2
+        simp only [beq_self_eq_true, if_true]
+        have hae : AtElem (b + T1) D st1 (k + 1) g grest (re.take w4 ++ [0x2C]) rf :=
+          { good := hg1
+            depth := ha.depth
+            lead := by
+              rw [ncDelim_arrS]
+              exact Or.inr ⟨by decide, re.take w4, by rw [← hw4]; exact ws_take re, rfl⟩
+            guard := by intro h0; omega
+            room := by have := ha.room; simp at hkl; omega }
+        have hsl := hL D rf (b + T1) st1 (k + 1) g grest (re.take w4 ++ [0x2C]) cnt
+          (base + (lead ++ r.take (consumeWhitespace r)).length + kk) hae (by simp at hkl; omega)
+        have hin2 : re = (re.take w4 ++ [0x2C]) ++ rf := by simpa using hsplit2
+        rcases hal : arrayLoop o fuel D rf with ⟨n2, e2⟩
+        rw [hal] at hsl
+        simp only [addOff]
+        constructor
+        · intro he2
+          simp only at he2
+          obtain ⟨T2, st2, hT2, hT2n, hn2l, hg2, hns2, hst2⟩ := hsl.1 he2
+          rw [← hin2] at hst2
+          refine ⟨T1 + T2, st2, by omega, by first | omega | (simp; omega), by simp at hkl ⊢; omega, ?_, by rw [hns2, hns1], ?_⟩
+          · have : b + (T1 + T2) = b + T1 + T2 := by omega
+            rw [this]; exact hg2
+          · have hcomp := steps_trans o hst1 hst2
+            have hdrop : r.drop (consumeWhitespace r + kk + w4 + 1 + n2) = rf.drop n2 := by
+              have e1 : consumeWhitespace r + kk + w4 + 1 + n2 = consumeWhitespace r + (kk + (w4 + (1 + n2))) := by omega
+              rw [e1, ← List.drop_drop, hd, ← List.drop_drop, hre, ← List.drop_drop, hd2]
+              first | rfl | (rw [Nat.add_comm 1 n2]; rfl) | simp
+            simp only
+            rw [hdrop]
+            have hbase : base + (lead ++ r.take (consumeWhitespace r)).length + kk + (re.take w4 ++ [0x2C]).length + n2 =
+                base + lead.length + (consumeWhitespace r + kk + w4 + 1 + n2) := by
+              have h1 : (r.take (consumeWhitespace r)).length = consumeWhitespace r := by
+                simp only [List.length_take]; have := ws_le r; omega
+              have h2 : (re.take w4).length = w4 := by
+                simp only [List.length_take]; have := ws_le re; rw [hw4] at this; omega
+              simp only [List.length_append, h1, h2, List.length_cons, List.length_nil]; omega
+            rw [hbase] at hcomp
+            exact hcomp
+        · intro he2
+          simp only at he2
+          intro F
+          exact rej_of_steps o hst1 (by rw [hin2]; exact hsl.2 he2) F
+      · have hcomma' : (c2 == 0x2C) = false := by simpa using hcomma
+        simp only [hcomma', Bool.false_eq_true, if_false]
+        by_cases hclose : (c2 == 0x5D) = true
+        · -- the array ends
+          have hc2 : c2 = 0x5D := by simpa using hclose
+          subst hc2
+          simp only [beq_self_eq_true, if_true]
+          refine ⟨fun _ => ?_, fun he => by simp at he⟩
+          obtain ⟨m', hm', hg2⟩ := sm_ok hg1 hb1 .endArr (step_endArr (k + 1) g grest)
+          have hrt := readToken_nodelim o st1 (re.take w4) 0x5D rf (by rw [← hw4]; exact ws_take re) (by decide) (by decide)
+          rw [needDelim_good hg1 (normKind 0x5D) .endArr (by decide), closeDelim_arr _ _ _ rfl] at hrt
+          simp only [bne_self_eq_false, Bool.false_eq_true, if_false] at hrt
+          rw [lexToken_endArr, feed_ok' st1 _ 1 _ m' hm', ← hsplit2] at hrt
+          have h2 : (re.take w4).length = w4 := by
+            simp only [List.length_take]; have := ws_le re; rw [hw4] at this; omega
+          rw [h2] at hrt
+          have hs2 := steps_one o st1 _ re cnt (base + (lead ++ r.take (consumeWhitespace r)).length + kk) (w4 + 1) hrt (by omega)
+          have hcomp := steps_trans o hst1 hs2
+          refine ⟨T1 + 1, { st1 with m := m' }, by omega, by first | omega | (simp; omega), by simp at hkl ⊢; omega, ?_, hns1, ?_⟩
+          · have : b + (T1 + 1) = b + T1 + 1 := by omega
+            rw [this]; exact hg2 st1.nss
+          · have hdep : ({ st1 with m := m' } : TState).m.depth = D - 1 := by
+              rw [good_depth (hg2 st1.nss)]; have := ha.depth; simp; omega
+            rw [hdep] at hcomp
+            have hcnt : (if (D - 1 == 1) = true then cnt + 1 else cnt) = (if D = 2 then cnt + 1 else cnt) := by
+              have := ha.depth
+              by_cases h : D = 2
+              · subst h; simp
+              · have : ¬ (D - 1 = 1) := by omega
+                simp [h, this]
+            rw [hcnt] at hcomp
+            have hdrop : r.drop (consumeWhitespace r + kk + w4 + 1) = re.drop (w4 + 1) := by
+              have e1 : consumeWhitespace r + kk + w4 + 1 = consumeWhitespace r + (kk + (w4 + 1)) := by omega
+              rw [e1, ← List.drop_drop, hd, ← List.drop_drop, hre]
+            simp only
+            rw [hdrop]
+            have hbase : base + (lead ++ r.take (consumeWhitespace r)).length + kk + (w4 + 1) =
+                base + lead.length + (consumeWhitespace r + kk + w4 + 1) := by
+              have h1 : (r.take (consumeWhitespace r)).length = consumeWhitespace r := by
+                simp only [List.length_take]; have := ws_le r; omega
+              simp only [List.length_append, h1]; omega
+            rw [hbase] at hcomp
+            exact hcomp
+        · have hclose' : (c2 == 0x5D) = false := by simpa using hclose
+          simp only [hclose', Bool.false_eq_true, if_false]
+          refine ⟨fun he => by simp at he, fun _ => ?_⟩
+          refine rej_of_steps o hst1 ?_
+          rw [hsplit2]
+          refine rej_unexpected o hg1 hb1 (re.take w4) c2 rf (by rw [← hw4]; exact ws_take re) hc2w
+            (by rw [ncDelim_arrS]; decide) (by rw [ncDelim_arrS]; simpa using hcomma) ?_ ?_ ?_ cnt _
+          · intro kk' hk'
+            rcases hk' with ⟨rfl, -⟩ | ⟨-, rfl⟩
+            · simp at hclose
+            · right; simp [PDA.step]
+          · intro kk' hk' h'; rw [closeDelim_arr _ _ _ hk'] at h'; cases h'
+          · intro kk' hk'; rw [closeDelim_arr _ _ _ hk']; decide
+
+theorem lexToken_beginArr (o : VOpts) (st : TState) (pos : Nat) (tl : Bytes) :
+    lexToken o st pos (0x5B :: tl) = feed st pos 1 (Machine.pushArray maxNestingDepth) := by
+  have hk : normKind 0x5B = 0x5B := by decide
+  simp [lexToken, hk]
+
+theorem step_beginArr (f : Frame) (frest : Frames) (hv : f.needName = false) :
+    PDA.step maxNestingDepth (f :: frest) .beginArr =
+      if frest.length < maxNestingDepth then some (.arr 0 :: f.bump :: frest) else none := by
+  simp [PDA.step, hv]
+
+theorem sa_step (o : VOpts) (fuel : Nat) (hL : SL o fuel) : SA o (fuel + 1) := by
+  intro D tl b st f frest pre cnt base ha hfuel
+  have hb1 : b + 1 < 2^61 := by have := ha.room; simp at this; omega
+  have hs : isStart 0x5B = true := by decide
+  obtain ⟨hcw, hncl, hndb⟩ := start_nc 0x5B hs
+  have hrt := readToken_pre o ha.good pre 0x5B tl ha.pre hcw hndb hncl
+  rw [lexToken_beginArr] at hrt
+  simp only [consumeArray]
+  by_cases hdep : (D == maxNestingDepth + 1) = true
+  · simp only [hdep, if_true]
+    refine ⟨fun he => by simp at he, fun _ => ?_⟩
+    have hD : D = maxNestingDepth + 1 := by simpa using hdep
+    have hstep : PDA.step maxNestingDepth (f :: frest) .beginArr = none := by
+      rw [step_beginArr f frest ha.vpos]
+      have := ha.depth
+      have : ¬ (frest.length < maxNestingDepth) := by omega
+      simp [this]
+    obtain ⟨se, hse⟩ := sm_err ha.good hb1 .beginArr hstep
+    rw [feed_err' st _ 1 _ se hse] at hrt
+    exact rej_of_err o st _ cnt base _ _ hrt (smErr_ne_ioeof se)
+  · have hdep' : (D == maxNestingDepth + 1) = false := by simpa using hdep
+    simp only [hdep', Bool.false_eq_true, if_false, List.drop_succ_cons, List.drop_zero]
+    have hDne : D ≠ maxNestingDepth + 1 := by simpa using hdep
+    have hstep : PDA.step maxNestingDepth (f :: frest) .beginArr = some (.arr 0 :: f.bump :: frest) := by
+      rw [step_beginArr f frest ha.vpos]
+      have := ha.depth
+      -- D ≤ max + 1 is not known here; the push itself decides
+      by_cases hlt : frest.length < maxNestingDepth
+      · simp [hlt]
+      · exfalso
+        -- the machine invariant bounds the depth
+        have hinv := ha.good.inv.depth
+        have habs := ha.good.abs
+        have hlen : (StateRefine.abs st.m).length = st.m.stack.length + 1 := by simp [StateRefine.abs]
+        rw [habs] at hlen
+        simp only [List.length_cons] at hlen
+        omega
+    obtain ⟨m', hm', hg1⟩ := sm_ok ha.good hb1 .beginArr hstep
+    rw [feed_ok' st _ 1 _ m' hm'] at hrt
+    have hst1 := steps_one o st { st with m := m' } (pre ++ 0x5B :: tl) cnt base (pre.length + 1) hrt (by omega)
+    have hdrop0 : (pre ++ 0x5B :: tl).drop (pre.length + 1) = tl := by
+      rw [← List.drop_drop]; simp
+    have hdep1 : ({ st with m := m' } : TState).m.depth = D + 1 := by
+      rw [good_depth (hg1 st.nss)]; have := ha.depth; simp; omega
+    rw [hdrop0, hdep1] at hst1
+    have hDpos : ¬ (D + 1 = 1) := by have := ha.depth; omega
+    have hc0 : (if (D + 1 == 1) = true then cnt + 1 else cnt) = cnt := by
+      have : D ≠ 0 := by have := ha.depth; omega
+      simp [this]
+    rw [hc0] at hst1
+    have hb2 : b + 1 + 1 < 2^61 := by have := ha.room; simp at this; omega
+    cases hd : tl.drop (consumeWhitespace tl) with
+    | nil =>
+      simp only
+      refine ⟨fun he => by simp at he, fun _ => ?_⟩
+      exact rej_of_steps o hst1 (rej_end o (hg1 st.nss) (by simp) tl (jws_of_drop_nil tl hd) cnt _)
+    | cons c rest =>
+      simp only
+      have hsplit := split_at_drop tl _ c rest hd
+      have hl1 := len_of_drop tl _ c rest hd
+      have hcw' : isWs c = false := by
+        have := ws_stop tl c rest hd; rw [← isWs_iff] at this; simpa using this
+      have htk : (tl.take (consumeWhitespace tl)).length = consumeWhitespace tl := by
+        simp only [List.length_take]; have := ws_le tl; omega
+      by_cases hclose : (c == 0x5D) = true
+      · have hc : c = 0x5D := by simpa using hclose
+        subst hc
+        simp only [beq_self_eq_true, if_true]
+        refine ⟨fun _ => ?_, fun he => by simp at he⟩
+        obtain ⟨m2, hm2, hg2⟩ := sm_ok (hg1 st.nss) hb2 .endArr (step_endArr 0 f.bump frest)
+        have hrt2 := readToken_nodelim o { st with m := m' } (tl.take (consumeWhitespace tl)) 0x5D rest (ws_take tl) (by decide) (by decide)
+        rw [needDelim_good (hg1 st.nss) (normKind 0x5D) .endArr (by decide), closeDelim_arr _ _ _ rfl] at hrt2
+        simp only [bne_self_eq_false, Bool.false_eq_true, if_false] at hrt2
+        rw [lexToken_endArr, feed_ok' _ _ 1 _ m2 hm2, ← hsplit, htk] at hrt2
+        have hs2 := steps_one o _ _ tl cnt (base + (pre.length + 1)) (consumeWhitespace tl + 1) hrt2 (by omega)
+        have hcomp := steps_trans o hst1 hs2
+        refine ⟨2, { st with m := m2 }, by omega, by first | omega | (simp; omega) | simp, by first | omega | (simp; omega) | simp, hg2 st.nss, rfl, ?_⟩
+        have hdep2 : ({ st with m := m2 } : TState).m.depth = D := by
+          rw [good_depth (hg2 st.nss)]; have := ha.depth; simp; omega
+        simp only at hcomp
+        rw [hdep2] at hcomp
+        have hcnt : (if (D == 1) = true then cnt + 1 else cnt) = (if D = 1 then cnt + 1 else cnt) := by
+          by_cases h : D = 1 <;> simp [h]
+        rw [hcnt] at hcomp
+        have hdrop : (0x5B :: tl).drop (1 + consumeWhitespace tl + 1) = tl.drop (consumeWhitespace tl + 1) := by
+          have : 1 + consumeWhitespace tl + 1 = (consumeWhitespace tl + 1) + 1 := by omega
+          rw [this, List.drop_succ_cons]
+        simp only
+        rw [hdrop]
+        have hbase : base + (pre.length + 1) + (consumeWhitespace tl + 1) = base + pre.length + (1 + consumeWhitespace tl + 1) := by omega
+        rw [hbase] at hcomp
+        exact hcomp
+      · have hclose' : (c == 0x5D) = false := by simpa using hclose
+        simp only [hclose', Bool.false_eq_true, if_false]
+        have hwsc : consumeWhitespace (c :: rest) = 0 := by simp [consumeWhitespace, hcw']
+        have hae : AtElem (b + 1) (D + 1) { st with m := m' } 0 f.bump frest (tl.take (consumeWhitespace tl)) (c :: rest) :=
+          { good := hg1 st.nss
+            depth := by have := ha.depth; omega
+            lead := by rw [ncDelim_arr0]; exact Or.inl ⟨rfl, ws_take tl⟩
+            guard := by
+              intro _ c' t' h'
+              rw [hwsc] at h'
+              simp only [List.drop_zero, List.cons.injEq] at h'
+              rw [← h'.1]; simpa using hclose
+            room := by have := ha.room; simp at this ⊢; omega }
+        have hsl := hL (D + 1) (c :: rest) (b + 1) _ 0 f.bump frest (tl.take (consumeWhitespace tl)) cnt
+          (base + (pre.length + 1)) hae (by simp at hfuel ⊢; omega)
+        rcases hal : arrayLoop o fuel (D + 1) (c :: rest) with ⟨n2, e2⟩
+        rw [hal] at hsl
+        have hst1' : Steps o 1 st (pre ++ 0x5B :: tl) cnt base { st with m := m' }
+            (tl.take (consumeWhitespace tl) ++ c :: rest) cnt (base + (pre.length + 1)) := by
+          rw [← hsplit]; exact hst1
+        simp only [addOff]
+        constructor
+        · intro he2
+          simp only at he2
+          obtain ⟨T2, st2, hT2, hT2n, hn2l, hg2, hns2, hst2⟩ := hsl.1 he2
+          refine ⟨1 + T2, st2, by omega, by first | omega | (simp; omega), by simp at hn2l ⊢; omega, ?_, by rw [hns2], ?_⟩
+          · have : b + (1 + T2) = b + 1 + T2 := by omega
+            rw [this]; exact hg2
+          · have hcomp := steps_trans o hst1' hst2
+            have hcnt : (if D + 1 = 2 then cnt + 1 else cnt) = (if D = 1 then cnt + 1 else cnt) := by
+              by_cases h : D = 1
+              · subst h; simp
+              · have : ¬ (D + 1 = 2) := by omega
+                simp [h, this]
+            rw [hcnt] at hcomp
+            have hdrop : (0x5B :: tl).drop (1 + consumeWhitespace tl + n2) = (c :: rest).drop n2 := by
+              have : 1 + consumeWhitespace tl + n2 = (consumeWhitespace tl + n2) + 1 := by omega
+              rw [this, List.drop_succ_cons, ← List.drop_drop, hd]
+            simp only
+            rw [hdrop]
+            have hbase : base + (pre.length + 1) + (tl.take (consumeWhitespace tl)).length + n2 =
+                base + pre.length + (1 + consumeWhitespace tl + n2) := by rw [htk]; omega
+            rw [hbase] at hcomp
+            exact hcomp
+        · intro he2
+          simp only at he2
+          exact rej_of_steps o hst1' (hsl.2 he2)
+
 end JsonV.Lemmas.WireTokenSim
